@@ -2,6 +2,7 @@
 # integrate.sh <name> — merge builder branch w/<name> (verif) and cherry-pick its repo commits onto /repo main
 n="$1"
 cd /verif
+git add -A; git commit -q -m "wip before merge" 2>/dev/null || true
 git merge --no-commit --no-ff "w/$n" >/tmp/merge.log 2>&1 || true
 for f in $(git diff --name-only --diff-filter=U); do
   case "$f" in
